@@ -268,8 +268,9 @@ class ChainLoop(Kron):
         return out
 
 
-def analyse(chk, repo, rid):
-    chk.rule(rid, 'site order of Kronecker products in the dense-meaning routines (OpChain.as_matrix, _subtree_as_matrix, '
+def analyse(chk, repo, rid, declare=True):
+    if declare:
+      chk.rule(rid, 'site order of Kronecker products in the dense-meaning routines (OpChain.as_matrix, _subtree_as_matrix, '
                   '_subgraph_as_matrix for both directions): every dense value is typed with the range of sites it acts on; '
                   'in kron(A, B) A acts on the sites directly before B; identity padding extends to the right only; both '
                   'operands of a sum start at the same site; the recursion descends to the node behind the current edge')
@@ -321,7 +322,8 @@ def analyse(chk, repo, rid):
             start = None
         k.block(fn.body, {})
         n += emit(chk, repo, rid, fi, k, f'graph direction {d}', start, end=(P if d == 0 else None))
-    chk.floor(rid, n, 10, hard_min=8)
+    if declare:
+        chk.floor(rid, n, 10, hard_min=8)
     return n
 
 
